@@ -416,11 +416,29 @@ func converge(k *mon.Case, r *rand.Rand, shard int) {
 	if r.Intn(2) == 0 {
 		forkA = 1 + r.Intn(3)
 	}
-	for i := 0; i < forkA; i++ {
-		blk, err := plain(a, r)
-		if err != nil || a.Apply(blk) != nil {
-			k.Inconclusive("build-fork-a")
-			return
+	atFinalized := forkA > 0 && r.Intn(3) == 0
+	if atFinalized {
+		// own fork long enough to finalize the last common block: the common block then sits
+		// exactly at the finalized height (the lowest the node may legitimately go back to)
+		forkA = 0
+		for a.Finalized() < uint32(prefix) && forkA < 2*nv-1 {
+			blk, err := plain(a, r)
+			if err != nil || a.Apply(blk) != nil {
+				k.Inconclusive("build-fork-a")
+				return
+			}
+			forkA++
+		}
+		if a.Finalized() == uint32(prefix) {
+			k.Count("common_block_at_finalized_height", 1)
+		}
+	} else {
+		for i := 0; i < forkA; i++ {
+			blk, err := plain(a, r)
+			if err != nil || a.Apply(blk) != nil {
+				k.Inconclusive("build-fork-a")
+				return
+			}
 		}
 	}
 	mode := []string{"honest", "honest", "invalid-state-root", "bad-signature", "truncated"}[r.Intn(5)]
@@ -569,6 +587,16 @@ func syncAndJudge(k *mon.Case, a, b *node.Node, remote *p2p.AddrInfo, ev *evil, 
 	}
 	shape := fmt.Sprintf("%s|forkA%d|ahead%d|fast%v%s", mode, forkA, ahead/3, ahead <= 2*nv, tag)
 	if mode == "honest" {
+		if tag == "" && finA > uint32(prefix) {
+			// the node has finalized blocks of its own fork above the common block: the peer's
+			// chain conflicts with final blocks and must NOT be adopted (checked above: every
+			// final block is still in place)
+			k.Count("peer_chain_conflicts_with_finalized_blocks", 1)
+			if bytes.Equal(a.Tip().Header.ID, b.Tip().Header.ID) {
+				k.Violation("converge:adopted-chain-conflicting-with-finalized-blocks", "the node switched to a chain that forks below its finalized height", wit)
+			}
+			return wit, false
+		}
 		if !better {
 			// the peer's chain has no priority under the LIP-0014 order (the node's own fork
 			// carries a higher maxHeightPrevoted): nothing to converge to
